@@ -19,6 +19,7 @@ import Mathlib.Algebra.Module.Basic
 import Mathlib.Tactic
 import MagpyVerif.Gen.Units
 import MagpyVerif.Lemmas.Display
+import MagpyVerif.Lemmas.DisplayTrig
 namespace MagpyVerif.C19
 open MagpyVerif.Gen
 
@@ -518,5 +519,186 @@ theorem pyramid_index_structure (N : Nat) (hN : 0 < N) :
 
 example : pyramidTriangles 4 = .ok [(0, 1, 4), (1, 2, 4), (2, 3, 4), (3, 0, 4)] := by decide
 example : baseRing 4 = [(0, 1), (1, 2), (2, 3), (0, 3)] := by decide
+
+/-! ## Vertex coordinates of the generators that use sin / cos (Model/DisplayTrig.lean at α = ℝ)
+
+The same definitions run at `Float` in the driver and are compared value by value with the real
+`make_Prism`, `make_CylinderSegment`, `make_Ellipsoid`, `make_Pyramid`, `make_Circle`,
+`make_Polyline` (stream `disp`, rows `prismv`, `segv`, `ellv`, `pyrv`, `circ`, `polyl`).  All
+statements are about the local frame (`position=None, orientation=None`); `place_*` above carries
+them to the pose.  Exact real arithmetic: sin² + cos² = 1 holds exactly, in IEEE double to rounding. -/
+
+open MagpyVerif.DisplayTrig in
+/-- Cylinder graphic (`make_Prism(base=N, diameter=d, height=h)`): `2N + 2` vertices; the first `2N`
+(the two rings) lie ON the lateral hull of the cylinder, `x² + y² = (d/2)²`, at `z = -h/2` or
+`z = h/2`; the last two are the cap centres on the axis. -/
+theorem prism_vertices_on_hull (N : Nat) (d h : ℝ) :
+    (prismVerts N d h).length = 2 * N + 2 ∧
+    (∀ v ∈ (prismVerts N d h).take (2 * N), v.x ^ 2 + v.y ^ 2 = (d / 2) ^ 2 ∧ (v.z = -(h / 2) ∨ v.z = h / 2)) ∧
+    (prismVerts N d h).drop (2 * N) = [⟨0, 0, -(h / 2)⟩, ⟨0, 0, h / 2⟩] :=
+  ⟨prismVerts_length N d h, prism_ring_on_hull N d h, prism_centres N d h⟩
+
+open MagpyVerif.DisplayTrig in
+/-- the rings are the regular `N`-gon INSCRIBED in the circle of diameter `d`, first vertex on the
++x axis, counter-clockwise, bottom ring at rows `0..N-1`, top ring at rows `N..2N-1` (what the
+index arrays of `prism_index_structure` refer to) -/
+theorem prism_vertex_formula (N : Nat) (d h : ℝ) (k : Nat) (hk : k < N) :
+    (prismVerts N d h)[k]? =
+        some ⟨d / 2 * Real.cos (2 * Real.pi * k / N), d / 2 * Real.sin (2 * Real.pi * k / N), -(h / 2)⟩ ∧
+    (prismVerts N d h)[N + k]? =
+        some ⟨d / 2 * Real.cos (2 * Real.pi * k / N), d / 2 * Real.sin (2 * Real.pi * k / N), h / 2⟩ :=
+  DisplayTrig.prism_vertex_formula N d h k hk
+
+open MagpyVerif.DisplayTrig in
+/-- "spans the full extent", as far as a polygonal approximation does: both end planes `z = ∓h/2`
+carry vertices, the vertex at angle 0 reaches `x = d/2` on both rings, and no ring vertex leaves the
+bounding box `|x|, |y| ≤ |d|/2` (the polygon is inscribed: between vertices the drawn surface stays
+inside the true hull, by at most `(d/2)(1 - cos(π/N))`; that bound is not proved here).  For even `N`
+the opposite side `x = -d/2` is reached as well. -/
+theorem prism_spans_extent (N : Nat) (hN : 1 ≤ N) (d h : ℝ) :
+    (prismVerts N d h)[0]? = some ⟨d / 2, 0, -(h / 2)⟩ ∧
+    (prismVerts N d h)[N]? = some ⟨d / 2, 0, h / 2⟩ ∧
+    (∀ v ∈ (prismVerts N d h).take (2 * N), |v.x| ≤ |d| / 2 ∧ |v.y| ≤ |d| / 2) ∧
+    (N % 2 = 0 → (prismVerts N d h)[N / 2]? = some ⟨-(d / 2), 0, -(h / 2)⟩) := by
+  have h0 := DisplayTrig.prism_vertex_formula N d h 0 (by omega)
+  simp only [Nat.cast_zero, mul_zero, zero_div, Real.cos_zero, Real.sin_zero, mul_one, Nat.add_zero] at h0
+  refine ⟨h0.1, h0.2, ?_, ?_⟩
+  · intro v hv
+    obtain ⟨hc, _⟩ := prism_ring_on_hull N d h v hv
+    have e : (|d| / 2) ^ 2 = (d / 2) ^ 2 := by rw [div_pow, sq_abs, div_pow]
+    have hd : 0 ≤ |d| / 2 := by positivity
+    constructor
+    · apply abs_le_of_sq_le_sq' _ hd |> fun h => abs_le.mpr h
+      rw [e]; nlinarith [sq_nonneg v.y]
+    · apply abs_le_of_sq_le_sq' _ hd |> fun h => abs_le.mpr h
+      rw [e]; nlinarith [sq_nonneg v.x]
+  · intro hev
+    have hk := (DisplayTrig.prism_vertex_formula N d h (N / 2) (by omega)).1
+    rw [hk]
+    have hNr : (N : ℝ) ≠ 0 := by exact_mod_cast (show N ≠ 0 by omega)
+    have e : 2 * Real.pi * ((N / 2 : ℕ) : ℝ) / (N : ℝ) = Real.pi := by
+      have : ((N / 2 : ℕ) : ℝ) = (N : ℝ) / 2 := by
+        have h2 : N = 2 * (N / 2) := by omega
+        rw [eq_div_iff (by norm_num)]
+        exact_mod_cast (by omega : N / 2 * 2 = N)
+      rw [this]; field_simp
+    rw [e, Real.cos_pi, Real.sin_pi]
+    simp
+
+open MagpyVerif.DisplayTrig in
+example : (prismVerts 4 2 6 : List (V3 ℝ)).length = 10 := (prism_vertices_on_hull 4 2 6).1
+
+open MagpyVerif.DisplayTrig in
+/-- CylinderSegment graphic (`make_CylinderSegment(dimension=(r1, r2, h, phi1, phi2), vert)`), for
+`phi1 ≤ phi2` (what the CylinderSegment validator guarantees): with `N = max(5, int(vert·|phi1-phi2|/360))`
+there are `4N` vertices (no vertex is dropped, also not for `r1 = 0`); every vertex is
+`(r cos φ°, r sin φ°, ±h/2)` with `r ∈ {r1, r2}` and `phi1 ≤ φ ≤ phi2`, i.e. on the inner or outer
+shell, inside the angular range, on the top or bottom plane — so in particular `x² + y² = r²`;
+and all eight corners (both radii × both extreme angles × both planes) are vertices. -/
+theorem cylinder_segment_vertices_on_surface (vert : Nat) (r1 r2 h phi1 phi2 : ℝ) (hphi : phi1 ≤ phi2) :
+    (segVerts vert r1 r2 h phi1 phi2).length = 4 * segN vert phi1 phi2 ∧
+    (∀ v ∈ segVerts vert r1 r2 h phi1 phi2,
+      ∃ r φ, (r = r1 ∨ r = r2) ∧ phi1 ≤ φ ∧ φ ≤ phi2 ∧
+        v.x = r * Real.cos (φ * (Real.pi / 180)) ∧ v.y = r * Real.sin (φ * (Real.pi / 180)) ∧
+        (v.z = h / 2 ∨ v.z = -(h / 2)) ∧ v.x ^ 2 + v.y ^ 2 = r ^ 2) ∧
+    (∀ r φ z, (r = r1 ∨ r = r2) → (φ = phi1 ∨ φ = phi2) → (z = h / 2 ∨ z = -(h / 2)) →
+      (⟨r * Real.cos (φ * (Real.pi / 180)), r * Real.sin (φ * (Real.pi / 180)), z⟩ : V3 ℝ)
+        ∈ segVerts vert r1 r2 h phi1 phi2) := by
+  have hN : 2 ≤ segN vert phi1 phi2 := le_trans (by norm_num) (le_segN vert phi1 phi2)
+  refine ⟨segVertsN_length _ _ _ _ _ _, ?_, ?_⟩
+  · intro v hv
+    obtain ⟨p, hp, r, hr, z, hz, rfl⟩ := mem_segVertsN.mp hv
+    obtain ⟨h1, h2⟩ := linspace_true_between hN hphi hp
+    refine ⟨r, p, hr, h1, h2, rfl, rfl, hz, ?_⟩
+    simp only
+    nlinarith [Real.sin_sq_add_cos_sq (p * (Real.pi / 180))]
+  · intro r φ z hr hφ hz
+    refine mem_segVertsN.mpr ⟨φ, ?_, r, hr, z, hz, rfl⟩
+    rcases hφ with rfl | rfl
+    · exact linspace_true_first_mem _ _ _ hN
+    · exact linspace_true_last_mem _ _ _ hN
+
+open MagpyVerif.DisplayTrig in
+/-- the arc count: at least 5, and `vert` per full turn -/
+theorem cylinder_segment_arc_count (vert : Nat) (phi1 phi2 : ℝ) :
+    segN vert phi1 phi2 = max 5 ⌊(vert : ℝ) * |phi1 - phi2| / 360⌋₊ := segN_eq vert phi1 phi2
+
+open MagpyVerif.DisplayTrig in
+example : segN 50 (0 : ℝ) 360 = 50 := by
+  rw [cylinder_segment_arc_count]
+  norm_num
+
+open MagpyVerif.DisplayTrig in
+/-- Sphere graphic (`make_Ellipsoid(dimension=(a, b, c), vert=N)`): every vertex lies ON the ellipsoid
+with semi-axes `a/2, b/2, c/2` (for a Sphere `a = b = c = diameter`); there are `N² - 2N + 2` of them
+(each pole once, `N - 2` latitude rings of `N`). -/
+theorem ellipsoid_vertices_on_surface (N : Nat) (a b c : ℝ) (ha : a ≠ 0) (hb : b ≠ 0) (hc : c ≠ 0) :
+    (∀ v ∈ ellipsoidVerts N a b c, (v.x / (a / 2)) ^ 2 + (v.y / (b / 2)) ^ 2 + (v.z / (c / 2)) ^ 2 = 1) ∧
+    (2 ≤ N → (ellipsoidVerts N a b c).length = N * N - 2 * N + 2) :=
+  ⟨fun _ hv => ellipsoidVerts_on_surface ha hb hc hv, ellipsoidVerts_length N a b c⟩
+
+open MagpyVerif.DisplayTrig in
+/-- "spans the full extent" for the ellipsoid: the first vertex is the south pole `(0, 0, -c/2)`, the last
+the north pole `(0, 0, c/2)` (full z-extent; the index arrays fan out from rows 0 and N2 = last).  In x
+and y the extent `±a/2`, `±b/2` is reached only if a latitude ring lies on the equator (odd `N`) and a
+longitude on the axis; in general the vertices are inscribed, see `ellipsoid_vertices_on_surface`. -/
+theorem ellipsoid_poles (N : Nat) (a b c : ℝ) (hN : 2 ≤ N) :
+    (ellipsoidVerts N a b c).head? = some ⟨0, 0, -(c / 2)⟩ ∧
+    (ellipsoidVerts N a b c).getLast? = some ⟨0, 0, c / 2⟩ :=
+  ellipsoidVerts_poles N a b c hN
+
+open MagpyVerif.DisplayTrig in
+/-- arrow heads / cones (`make_Pyramid(base=N, diameter=d, height=h, pivot)`): `N` base vertices on the
+circle of diameter `d` in the plane `z = -h/2 + z_shift`, then the tip on the axis at `z = h/2 + z_shift`
+(`z_shift = h/2, -h/2, 0` for pivot tail / tip / middle): the drawn height is exactly `h`. -/
+theorem pyramid_vertices_on_cone (N : Nat) (d h : ℝ) (p : Pivot) :
+    (pyramidVerts N d h p).length = N + 1 ∧
+    (∀ v ∈ (pyramidVerts N d h p).take N, v.x ^ 2 + v.y ^ 2 = (d / 2) ^ 2 ∧ v.z = -(h / 2) + zShift p h) ∧
+    (pyramidVerts N d h p)[N]? = some ⟨0, 0, h / 2 + zShift p h⟩ ∧
+    zShift p h = (match p with | .tail => h / 2 | .tip => -(h / 2) | .middle => 0) :=
+  ⟨(pyramid_on_cone N d h p).1, (pyramid_on_cone N d h p).2.1, (pyramid_on_cone N d h p).2.2, zShift_real p h⟩
+
+open MagpyVerif.DisplayTrig in
+/-- the generator as a whole fails for `vert ≤ 3` (`np.concatenate([])`), although `make_Sphere` clamps
+its `vertices` argument to `3..20` -/
+theorem ellipsoid_rejects_small (N : Nat) (a b c : ℝ) :
+    (∃ l, ellipsoid N a b c = .ok l) ↔ 4 ≤ N := by
+  unfold ellipsoid
+  split
+  · simp; omega
+  · simp; omega
+
+open MagpyVerif.DisplayTrig in
+/-- drawn current loop (`make_Circle(obj, base)` line trace, `base ≥ 2`; default 72): `base` points, each
+in the loop plane `z = 0` at distance `d/2` from the axis; the first and the last point coincide
+(`(d/2, 0, 0)`), so the polyline through them is CLOSED; point `k` sits at angle `2πk/(base-1)`. -/
+theorem circle_trace_on_circle (base : Nat) (d : ℝ) (hb : 2 ≤ base) :
+    (circleTrace base d).length = base ∧
+    (∀ v ∈ circleTrace base d, v.x ^ 2 + v.y ^ 2 = (d / 2) ^ 2 ∧ v.z = 0) ∧
+    (circleTrace base d).head? = some ⟨d / 2, 0, 0⟩ ∧
+    (circleTrace base d).getLast? = some ⟨d / 2, 0, 0⟩ ∧
+    circleTrace base d = (List.range base).map (fun (k : ℕ) =>
+      (⟨d / 2 * Real.cos (2 * Real.pi * k / ((base - 1 : ℕ) : ℝ)),
+        d / 2 * Real.sin (2 * Real.pi * k / ((base - 1 : ℕ) : ℝ)), 0⟩ : V3 ℝ)) :=
+  ⟨circleTrace_length base d, circleTrace_on_circle base d, circleTrace_head base d hb,
+   circleTrace_last base d hb, circleTrace_eq base d hb⟩
+
+open MagpyVerif.DisplayTrig in
+example : ((circleTrace 72 3 : List (V3 ℝ)).head? = some ⟨3 / 2, 0, 0⟩) := (circle_trace_on_circle 72 3 (by norm_num)).2.2.1
+
+open MagpyVerif.DisplayTrig in
+/-- drawn Polyline (`make_Polyline(obj)` line trace): the three coordinate arrays are the columns of
+`obj.vertices`, so zipping them back gives exactly the conductor's vertices, in order -/
+theorem polyline_trace_is_vertices {β : Type} (verts : List (V3 β)) :
+    let t := polylineTrace verts
+    t.1.length = verts.length ∧ t.2.1.length = verts.length ∧ t.2.2.length = verts.length ∧
+    (List.zipWith (fun x (yz : β × β) => (⟨x, yz.1, yz.2⟩ : V3 β)) t.1 (List.zip t.2.1 t.2.2)) = verts := by
+  simp only [polylineTrace, List.length_map, true_and]
+  induction verts with
+  | nil => rfl
+  | cons v vs ih => simp [ih]
+
+open MagpyVerif.DisplayTrig in
+example : polylineTrace [(⟨1, 2, 3⟩ : V3 Int), ⟨4, 5, 6⟩] = ([1, 4], [2, 5], [3, 6]) := by decide
 
 end MagpyVerif.C19
